@@ -249,6 +249,19 @@ def _f65(ctx, mdl, large, sweep):
         ok, d = decide_equal(o.attrs['radius'], exp_radius)
         if ok is not True:
             probs4.append('stored radius: ' + d)
+        # the derived parameterisation does not re-write the constructor's own state: end points, rotation and the two
+        # quantities documented as phi = radians(rotation), rot_matrix = exp(i phi)
+        for attr, want in (('start', ch['S']), ('end', ch['E']), ('rotation', ch['rot']), ('phi', ch['rot'] * PI / 180), ('rot_matrix', ch['rotm'])):
+            if attr in o.attrs:
+                try:
+                    ok, d = decide_equal(o.attrs[attr], want)
+                except Exception:
+                    ok, d = None, ''
+                if ok is False:
+                    probs4.append('after construction %s is not the value the arguments define: %s' % (attr, d))
+        for attr, want in (('large_arc', large), ('sweep', sweep)):
+            if attr in o.attrs and isinstance(o.attrs[attr], bool) and o.attrs[attr] is not want:
+                probs4.append('after construction %s is %r for the argument %r' % (attr, o.attrs[attr], want))
         # centre: must equal the F.6.5 centre of a variant the path justifies
         matched = None
         last = ''
